@@ -118,7 +118,11 @@ func engineSelftest() int {
 	bad := 0
 	explored := map[string]map[string]bool{}
 	for i, p := range corpus.Progs {
-		st := explore.Explore(explore.Config{Harness: "selftest.prog", Params: fmt.Sprint(i), Bound: 64, FreeSwitch: true, MaxSteps: 5000})
+		bound := 64
+		if p.Bound > 0 {
+			bound = p.Bound
+		}
+		st := explore.Explore(explore.Config{Harness: "selftest.prog", Params: fmt.Sprint(i), Bound: bound, FreeSwitch: true, MaxSteps: 5000})
 		got := map[string]bool{}
 		for o := range st.Outcomes {
 			o = strings.TrimSpace(o)
